@@ -1,6 +1,6 @@
 (* C17 — cdata equality, ordering and hashing.
 
-   Model of  cdata_richcompare (src/c/_cffi_backend.c:2358)  and  cdata_hash (:2436), embedded in
+   Model of  cdata_richcompare (src/c/_cffi_backend.c:2394)  and  cdata_hash (:2472), embedded in
    CPython's comparison protocol do_richcompare (Objects/object.c): reflected slot first when
    type(w) is a proper subtype of type(v), then v's slot, then w's slot with the swapped
    operator, then the identity fallback for == / != and TypeError for the orderings.
